@@ -113,15 +113,15 @@ def h_state_matrix(n, m, zpat):
                ('reported state names are exactly the remaining states', sorted(e.x_name) == sorted(names[i] for i in D))]
         if tuple(shape) != (len(D), len(D)) or sorted(e.x_name) != sorted(names[i] for i in D):
             return out
-        D = [names.index(nm) for nm in e.x_name]      # row/column a of the result belongs to the state it is named after
+        Dn = [names.index(nm) for nm in e.x_name]      # row/column a of the result belongs to the state it is named after
         # expected: T_D^-1 (F_DD - F_DZ F_ZZ^-1 F_ZD); with G = dgy*F and adjugate of G_ZZ:
         #   dgy * det(G_ZZ) * T_i * As_ij  ==  det(G_ZZ)*G_ij - sum G_iZ adj(G_ZZ) G_Zj
         if Z:
             Gzz = [[dF[a][b] for b in Z] for a in Z]
             dz = dshim.det(Gzz)
             Az = dshim.adj(Gzz)
-        for a, i in enumerate(D):
-            for b, j in enumerate(D):
+        for a, i in enumerate(Dn):
+            for b, j in enumerate(Dn):
                 if Z:
                     rhs = dz * dF[i][j] - sum(dF[i][Z[k]] * Az[k][l] * dF[Z[l]][j] for k in range(len(Z)) for l in range(len(Z)))
                     lhs = dgy * dz * T[i] * ent(a, b)
@@ -226,7 +226,7 @@ def assoc_loop():
         mod = ast.Module(body=[f], type_ignores=[])
         ast.fix_missing_locations(mod)
         g = dict(eigmod.__dict__)
-        exec(compile(mod, '<EIG.report association loop>', 'exec'), g)
+        exec(compile(mod, '<repo:EIG.report association loop>', 'exec'), g)
         _ASSOC = g['_assoc']
     return _ASSOC
 
